@@ -613,7 +613,61 @@ fn run_fixed_generator(ctx: &mut Ctx) {
     }
 }
 
+/// chunk sizes the framing rules exclude (below 512, not a power of two, above 2^30) offered to the
+/// builder, with and without encryption / compression / signing: refused, or what is written is
+/// legal all the same (oracle only; the framing walk is the model's `deframeAll` via `real_stream`)
+fn run_illegal_chunk_sizes(ctx: &mut Ctx) {
+    use pgp::crypto::sym::SymmetricKeyAlgorithm;
+    let data = pattern(77, 5000);
+    for size in [0u32, 1, 2, 64, 128, 256, 511, 513, 768, 1000, 1023, 1025, (1 << 30) + 1, 3 << 29, u32::MAX] {
+        for shape in 0..5u8 {
+            for from_reader in [false, true] {
+                let r = guarded(|| {
+                    let mut rng = rand::thread_rng();
+                    macro_rules! finish {
+                        ($b:expr) => {{
+                            let mut b = $b;
+                            match b.partial_chunk_size(size) {
+                                Err(_) => None,
+                                Ok(_) => Some(b.to_vec(&mut rng).map_err(|e| e.to_string())),
+                            }
+                        }};
+                    }
+                    macro_rules! shapes {
+                        ($plain:expr) => {{
+                            match shape {
+                                0 => finish!($plain),
+                                1 => { let mut b = $plain.seipd_v1(&mut rng, SymmetricKeyAlgorithm::AES128); b.set_session_key(vec![7u8; 16].into()).ok(); finish!(b) }
+                                2 => { let mut b = $plain.seipd_v2(&mut rng, SymmetricKeyAlgorithm::AES128, pgp::crypto::aead::AeadAlgorithm::Ocb, pgp::crypto::aead::ChunkSize::C64B); b.set_session_key(vec![7u8; 16].into()).ok(); finish!(b) }
+                                3 => { let mut b = $plain; b.compression(pgp::types::CompressionAlgorithm::ZLIB); finish!(b) }
+                                _ => { let mut b = $plain.seipd_v1(&mut rng, SymmetricKeyAlgorithm::AES128); b.set_session_key(vec![7u8; 16].into()).ok(); b.compression(pgp::types::CompressionAlgorithm::ZIP); finish!(b) }
+                            }
+                        }};
+                    }
+                    if from_reader {
+                        shapes!(MessageBuilder::from_reader("", ScheduledReader::new(&data, &[700, 3])))
+                    } else {
+                        shapes!(MessageBuilder::from_bytes("", data.clone()))
+                    }
+                });
+                let input = format!("partial_chunk_size({size}) shape={shape} from_reader={from_reader}");
+                match r {
+                    Err(p) => ctx.oracle("writer_emits_legal_framing", "MessageBuilder::partial_chunk_size / to_vec", &input, false, &format!("panic {p}")),
+                    Ok(None) | Ok(Some(Err(_))) => ctx.stat("illegal_chunk_size:refused"),
+                    Ok(Some(Ok(out))) => {
+                        let s = real_stream(&out);
+                        let legal = s.ends_with(";end") && !s.contains("err");
+                        ctx.oracle("writer_emits_legal_framing", "MessageBuilder::partial_chunk_size / to_vec", &input, legal, &format!("written stream splits as {}", &s[..s.len().min(120)]));
+                        ctx.stat("illegal_chunk_size:accepted");
+                    }
+                }
+            }
+        }
+    }
+}
+
 pub fn run(ctx: &mut Ctx) {
+    run_illegal_chunk_sizes(ctx);
     run_fixed_generator(ctx);
     run_truncated_composed(ctx);
     run_header_writeback(ctx);
